@@ -10,7 +10,8 @@ ADV_SETUP = ["wrongcode", "wrongproof", "noproof", "a0", "aN", "a2N", "aempty", 
 ADV_VERIFY = ["badsig", "unknown", "unknowntail", "reordered", "stale", "zerokey", "randkey", "flip", "inner-garbage", "short0", "short7",
               "short15", "short16", "reflect", "keylen31", "keylen33", "keylen0", "finishfirst", "startonly", "garbage"]
 XEPS = [("accessories", "GET"), ("characteristics", "GET"), ("characteristics-put", "PUT"), ("pairings", "POST"),
-        ("pairings-remove", "POST"), ("resource", "POST"), ("identify", "POST")]
+        ("pairings-remove", "POST"), ("resource", "POST"), ("identify", "POST"),
+        ("get-missing", "GET"), ("get-writeonly", "GET"), ("get-one", "GET"), ("put-readonly", "PUT"), ("put-noevents", "PUT"), ("put-missing", "PUT")]
 
 
 def pair_tokens(line, obs):
@@ -58,6 +59,8 @@ def gen_c01(rng, tier):
                 ops.append("Q:" + a)
         ops += ["L:2.9:true", "W", "ST", "CB", "E:h"] + ["E:" + a for a in adv]
         mk(cases, "adv", ops, {"adv": adv})
+    # refusals must not depend on what exists and what it permits
+    mk(cases, "adv", ["N:h", "S:h:c0:ok", "V:h:c0:ok", "N:a0"] + ["X:a0:%s:%s" % (e, m) for e, m in XEPS if e.startswith(("get-", "put-", "characteristics"))] + ["ST", "CB"], {"adv": ["a0"]})
     # a refused request of an unverified connection arrives while a verified controller's subscription request is in flight
     # (headers received, body not yet): later changes are notified to the controller, never to the unverified connection
     for _ in range(3 if tier == "quick" else 30):
@@ -97,8 +100,16 @@ def oracle_c01(c, obs):
     adv = set(c["meta"].get("adv", []))
     if "NS=unsupported" in obs:
         return None        # this host cannot open two connections from one local ip:port
+    refusals = {}
     for op, tok in pairs:
         p = op.split(":")
+        if p[0] == "X" and ",body=" in tok and len(p) > 2:
+            # a refusal discloses nothing: on one endpoint it reads the same whatever ids, values or subscriptions were asked for
+            ep = "/characteristics" if p[2].startswith(("get-", "put-", "characteristics")) else p[2]
+            b = tok.split(",body=")[1]
+            if refusals.setdefault(ep, (b, op)) [0] != b:
+                return "refusals on %s differ with what was asked for (%s vs %s): a refused request discloses which attributes exist / what they permit: %s | %s" % (
+                    ep, refusals[ep][1], op, bytes.fromhex(refusals[ep][0]).decode("utf-8", "replace")[:80], bytes.fromhex(b).decode("utf-8", "replace")[:80])
         if p[0] == "PSPLIT":
             if not tok.startswith("PSPLIT=204/470,canary=0"):
                 return "a subscription request in flight while an unverified connection was refused: %s (expected 204 for the controller, 470 without attribute values for the other)" % tok[7:]
@@ -163,6 +174,11 @@ def gen_c02(rng, tier):
         base = bytes(rng.randrange(33, 127) for _ in range(L - 1))
         a, b = "h" + (base + b"A").hex(), "h" + (base + b"B").hex()
         mk(cases, "identity", ["N:a", "S:a:%s:ok" % a, "ST", "N:b", "S:b:%s:ok" % b, "ST", "N:c", "V:c:%s:ok" % a, "V:c:%s:ok" % b, "S:c:%s:ok" % (a[:-2] if L > 1 else "hff"), "ST"])
+    # two connections open at the same time: one had an attempt refused, the other proves the code afterwards; the prover's
+    # genuine key exchange delivered on the OTHER connection stores nothing (pair-setup state is per connection)
+    for pre in (["S:a:evil:start", "S:a:evil:m3wrong"], ["S:a:evil:start", "S:a:evil:m3wrong", "S:a:evil:start"], ["S:a:evil:wrongcode"], ["S:a:evil:m5first"], []):
+        ops = ["N:a"] + pre + ["N:b", "S:b:k:start", "S:b:k:m3", "S:a:k:m5of_b", "ST", "S:a:evil:m5zerokey", "ST", "S:b:k:m5", "ST"]
+        mk(cases, "two-conns", ops)
     # more than a hundred wrong proofs (the specification's limit of authentication attempts), on one and on several
     # connections; afterwards a key exchange without any proof on a fresh connection, and a genuine pairing
     for tail in (["m5zeroempty"], ["m5emptyhkdf"], ["m5zerokey"]) if tier == "quick" else (["m5zeroempty"], ["m5emptyhkdf"], ["m5zerokey"], ["m5first"], ["m5randkey"]):
@@ -210,6 +226,7 @@ def spec_setup(ops):
                 "m5first": ["bad5"], "start": ["start"], "m3": ["m3"], "m3wrong": ["bad3"], "m5": ["m5"], "m5flip": ["bad5"], "m5short": ["bad5"],
                 "m5empty": ["bad5"], "m5zerokey": ["bad5"], "m5randkey": ["bad5"], "m5wrongsigner": ["bad5"], "m5inner": ["inner5"],
                 "m5zerosig": ["bad5"], "m5nosig": ["bad5"], "m5othersig": ["bad5"], "replayok": ["start", "bad3", "bad5"],
+                "m5of_a": ["bad5"], "m5of_b": ["bad5"], "m5of_c": ["bad5"],
                 "badstep": [], "badmethod": [], "garbage": []}[v]
         for m in seqs:
             if m == "start":
